@@ -129,7 +129,7 @@ Proof.
   assert (H0 : jp_near (jls_params P 0) = 0) by (destruct (jls_params_facts P 0 HP Hn); assumption).
   rewrite (regular_enc_lossless_near0 false _ _ _ _ _ _ _ H0).
   destruct (regular_enc PkNear true (jls_params P 0) c qs ra rb rc x) as [[ops c'] stored] eqn:E.
-  destruct (sample_near P 0 true c qs ra rb rc x [] ops c' stored HP Hn Hx E) as (x' & _ & Habs & _ & Hst).
+  destruct (sample_near P 0 true c qs ra rb rc x [] ops c' stored HP Hn Hx E) as (x' & _ & Habs & _ & Hst & _).
   assert (x' = x) by lia. subst x' stored.
   unfold regular_enc in *. cbv zeta in *. inversion E as [[Hops Hc Hs]]. rewrite Hs. reflexivity.
 Qed.
